@@ -24,7 +24,9 @@ import (
 type callPlan struct {
 	ID     string `json:"id"`
 	Cancel string `json:"cancel"` // none | pre | during-write | after-received | after-replied | deadline
-	Server string `json:"server"` // reply | late | never | close | push-reply | reply-push
+	// reply | late | never | close | push-reply | reply-push | close-late (the first transmission is read and the connection
+	// closed, so that the client re-dials and re-sends inside the call; the retransmission is answered late)
+	Server string `json:"server"`
 }
 type c10Case struct {
 	Callers [][]callPlan `json:"callers"`
@@ -51,6 +53,7 @@ type c10Server struct {
 	seen     map[string]int
 	released map[string]chan struct{}
 	gotReq   map[string]chan struct{} // closed when the server has read the request
+	gotReq2  map[string]chan struct{} // closed when the server has read the retransmission of the request
 	replied  map[string]chan struct{}
 	conns    []*memnet.Conn
 }
@@ -75,9 +78,18 @@ func (s *c10Server) serve(c *memnet.Conn) {
 		rep := s.replied[id]
 		s.mu.Unlock()
 		closeOnce(s.gotReq[id])
+		if n == 2 {
+			closeOnce(s.gotReq2[id])
+		}
 		action := p.Server
 		if n > 1 {
 			action = "reply" // a retransmission after a reconnect is answered
+		}
+		if p.Server == "close-late" {
+			action = map[int]string{1: "close", 2: "late"}[n]
+			if action == "" {
+				action = "reply"
+			}
 		}
 		switch action {
 		case "reply":
@@ -120,7 +132,7 @@ type callResult struct {
 }
 
 func c10Run(c c10Case) (sig string, err error) {
-	srv := &c10Server{plans: map[string]callPlan{}, seen: map[string]int{}, released: map[string]chan struct{}{}, replied: map[string]chan struct{}{}, gotReq: map[string]chan struct{}{}}
+	srv := &c10Server{plans: map[string]callPlan{}, seen: map[string]int{}, released: map[string]chan struct{}{}, replied: map[string]chan struct{}{}, gotReq: map[string]chan struct{}{}, gotReq2: map[string]chan struct{}{}}
 	cancels := map[string]context.CancelFunc{}
 	var cmu sync.Mutex
 	for _, calls := range c.Callers {
@@ -129,6 +141,7 @@ func c10Run(c c10Case) (sig string, err error) {
 			srv.released[p.ID] = make(chan struct{})
 			srv.replied[p.ID] = make(chan struct{})
 			srv.gotReq[p.ID] = make(chan struct{})
+			srv.gotReq2[p.ID] = make(chan struct{})
 		}
 	}
 	cl, derr := kmipclient.Dial("verif", kmipclient.EnforceVersion(kmip.V1_4), kmipclient.WithDialerUnsafe(func(ctx context.Context) (net.Conn, error) {
@@ -164,6 +177,7 @@ func c10Run(c c10Case) (sig string, err error) {
 	// the generator owns the window between send and recv: the hook knows which request was just sent
 	var current sync.Map // goroutine id -> identifier of the call it is executing
 	hits := map[string]int{}
+	acted := map[string]bool{}
 	kmipclient.SetVerifYield(func(point string) {
 		if point != "kmipclient.conn.roundtrip.sent" {
 			return
@@ -180,9 +194,26 @@ func c10Run(c c10Case) (sig string, err error) {
 		got := srv.gotReq[id]
 		hits[id]++
 		first := hits[id] == 1
+		if p.Server == "close-late" {
+			// the exchange the generator interferes with is the one the server answers late: the second transmission it
+			// reads (the client's own count of completed sends can differ: a send may report the server's close although
+			// the server has read the request)
+			got = srv.gotReq2[id]
+			first = !acted[id]
+		}
 		srv.mu.Unlock()
 		if !first {
 			return // a retransmission after a reconnect
+		}
+		if p.Server == "close-late" {
+			select {
+			case <-got:
+			case <-time.After(100 * time.Millisecond):
+				return // this transmission is the one whose connection the server closes
+			}
+			srv.mu.Lock()
+			acted[id] = true
+			srv.mu.Unlock()
 		}
 		doCancel := func() {
 			cmu.Lock()
@@ -236,7 +267,7 @@ func c10Run(c c10Case) (sig string, err error) {
 				cmu.Lock()
 				cancels[p.ID] = cancel
 				cmu.Unlock()
-				if p.Server == "late" && (p.Cancel == "none" || p.Cancel == "pre") {
+				if (p.Server == "late" || p.Server == "close-late") && (p.Cancel == "none" || p.Cancel == "pre") {
 					rel := srv.released[p.ID]
 					time.AfterFunc(10*time.Millisecond, func() { closeOnce(rel) })
 				}
@@ -296,7 +327,7 @@ func c10Run(c c10Case) (sig string, err error) {
 			return "call-panics", fmt.Errorf("caller %d call %d: %s", r.Caller, r.Index, r.Err)
 		}
 		p := srv.plans[r.ID]
-		if r.Err != "" && p.Cancel == "none" && (p.Server == "reply" || p.Server == "late" || p.Server == "push-reply" || p.Server == "reply-push") {
+		if r.Err != "" && p.Cancel == "none" && (p.Server == "reply" || p.Server == "late" || p.Server == "push-reply" || p.Server == "reply-push" || p.Server == "close-late") {
 			// an undisturbed call on a healthy server may only fail if an earlier call of another caller tore the shared connection down;
 			// the client retries on a fresh connection, so it must succeed
 			return "undisturbed-call-fails", fmt.Errorf("caller %d call %d (%s, server %s, no cancellation) failed: %s", r.Caller, r.Index, r.ID, p.Server, r.Err)
@@ -308,7 +339,7 @@ func c10Run(c c10Case) (sig string, err error) {
 func TestC10OwnResponse(t *testing.T) {
 	const name = "TestC10OwnResponse"
 	rec := evid.New("C10", name, "1..4 caller goroutines sharing one client, each issuing 1..4 calls with unique identifiers; per call a cancellation plan (none, context already cancelled, cancelled while the request is half written, cancelled between send and receive once the server has read the request, "+
-		"cancelled once the server has written the reply, 15 ms deadline) and a server plan (reply at once, reply late - after the call was abandoned -, never reply, close the connection, send a server-originated request before or after the reply); the send/recv window is owned by the generator through the yield-point hook; real time, event driven; "+
+		"cancelled once the server has written the reply, 15 ms deadline) and a server plan (reply at once, reply late - after the call was abandoned -, never reply, close the connection, close the connection after reading the request and answer the retransmission late, send a server-originated request before or after the reply); the send/recv window is owned by the generator through the yield-point hook; real time, event driven; "+
 		"oracle: every call returns within 30 s with an error or the response echoing its own identifier, undisturbed calls succeed; non-trivial = a call cancelled mid-exchange is followed by a later call, or >= 2 callers; distinct by case").Attach(t)
 	if rp := evid.LoadReplay(name); rp != nil {
 		var c c10Case
@@ -336,13 +367,15 @@ func TestC10OwnResponse(t *testing.T) {
 				p.Cancel = rapid.SampledFrom([]string{"none", "none", "none", "pre", "after-received", "after-replied", "after-replied", "deadline", "during-write"}).Draw(rt, "cancel")
 				switch p.Cancel {
 				case "none", "pre":
-					p.Server = rapid.SampledFrom([]string{"reply", "reply", "late", "close", "push-reply", "reply-push"}).Draw(rt, "server")
+					p.Server = rapid.SampledFrom([]string{"reply", "reply", "late", "close", "push-reply", "reply-push", "close-late"}).Draw(rt, "server")
 				case "after-received":
-					p.Server = rapid.SampledFrom([]string{"late", "never", "reply"}).Draw(rt, "server")
-				case "after-replied", "during-write":
+					p.Server = rapid.SampledFrom([]string{"late", "never", "reply", "close-late"}).Draw(rt, "server")
+				case "during-write":
 					p.Server = rapid.SampledFrom([]string{"reply", "reply", "late"}).Draw(rt, "server")
+				case "after-replied":
+					p.Server = rapid.SampledFrom([]string{"reply", "reply", "late", "close-late"}).Draw(rt, "server")
 				default:
-					p.Server = rapid.SampledFrom([]string{"late", "never", "reply"}).Draw(rt, "server")
+					p.Server = rapid.SampledFrom([]string{"late", "never", "reply", "close-late"}).Draw(rt, "server")
 				}
 				if (p.Cancel == "after-received" || p.Cancel == "after-replied" || p.Cancel == "during-write") && i < m-1 {
 					nt = true
